@@ -289,6 +289,10 @@ class Scenario:
             S.obs(ev="settled", u=u)
             if k == "sat_probe":
                 S.obs(ev="sat_probe", u=u, n=op[1])
+        elif k == "set_pickler":
+            from loky.backend.reduction import set_loky_pickler
+            set_loky_pickler(op[1])
+            S.obs(ev="set_pickler", u=u, name=op[1])
         elif k == "release":
             tasks.RELEASED.add(op[1])
         elif k == "sleep":
@@ -318,7 +322,7 @@ class Scenario:
         ex = fut.exception()
         if ex is None:
             v = fut.result()
-            S.obs(ev="resolve", t=tid, outcome="result", good=(v == tasks.value_of(tid) or (isinstance(v, list) and v[:2] in (["value", tid], ["pid", tid]))),
+            S.obs(ev="resolve", t=tid, outcome="result", good=(v == tasks.value_of(tid) or (isinstance(v, list) and v[:2] in (["value", tid], ["pid", tid], ["pickler", tid]))),
                   value=repr(v)[:60], by=esim.me())
         else:
             cause = getattr(ex, "__cause__", None)
